@@ -139,7 +139,7 @@ func (x *fnCtx) bindType(td *TraceDecl) types.Type {
 	return found
 }
 
-func (x *fnCtx) findNamedType(name string) types.Type {
+func (x *fnCtx) findNamedType(name string, ctxPkg string) types.Type {
 	star := strings.HasPrefix(name, "*")
 	name = strings.TrimPrefix(name, "*")
 	var pkg *types.Package
@@ -155,6 +155,8 @@ func (x *fnCtx) findNamedType(name string) types.Type {
 				}
 			}
 		}
+	} else if ctxPkg != "" && x.pkgByPath(ctxPkg) != nil {
+		pkg = x.pkgByPath(ctxPkg)
 	} else if x.fn.Pkg != nil {
 		pkg = x.fn.Pkg.Pkg
 	} else {
@@ -169,6 +171,19 @@ func (x *fnCtx) findNamedType(name string) types.Type {
 	}
 	obj := pkg.Scope().Lookup(tname)
 	if obj == nil {
+		// a callee's contract evaluated at a call site: search the loaded repo packages
+		for _, p := range x.eng.prog.AllPackages() {
+			if strings.HasPrefix(p.Pkg.Path(), repoPrefix) {
+				if o := p.Pkg.Scope().Lookup(tname); o != nil {
+					if _, isType := o.(*types.TypeName); isType {
+						obj = o
+						break
+					}
+				}
+			}
+		}
+	}
+	if obj == nil {
 		x.fail("spec: unknown type %s", name)
 	}
 	t := obj.Type()
@@ -176,6 +191,15 @@ func (x *fnCtx) findNamedType(name string) types.Type {
 		return types.NewPointer(t)
 	}
 	return t
+}
+
+func (x *fnCtx) pkgByPath(path string) *types.Package {
+	for _, p := range x.eng.prog.AllPackages() {
+		if p.Pkg.Path() == path {
+			return p.Pkg
+		}
+	}
+	return nil
 }
 
 func (x *fnCtx) pkgMember(pkgName, member string) (*Val, bool) {
@@ -697,11 +721,11 @@ func (x *fnCtx) evalSpecCall(env *specEnv, e *SExpr) *Val {
 		return scalar(tString, SBytes(arr, a.Off(), a.Len()))
 	case "typeis":
 		a := ev(0)
-		t := x.findNamedType(args[1].Op)
+		t := x.findNamedType(args[1].Op, env.pkg)
 		return scalar(tBool, Eq(a.Tag(), IntLit(typeTag(t))))
 	case "as":
 		a := ev(0)
-		t := x.findNamedType(args[1].Op)
+		t := x.findNamedType(args[1].Op, env.pkg)
 		ls := layout(t)
 		if len(ls) == 1 && ls[0].Sort == SInt {
 			return &Val{T: t, L: []*Term{a.IVal()}}
@@ -726,6 +750,12 @@ func (x *fnCtx) evalSpecCall(env *specEnv, e *SExpr) *Val {
 		return scalar(tBool, x.lockHeld(env, ev(0), 2))
 	case "heldR":
 		return scalar(tBool, x.lockHeld(env, ev(0), 1))
+	case "locked":
+		// held in any mode (true in the sequential pass)
+		if !x.lockLayer() {
+			return scalar(tBool, True)
+		}
+		return scalar(tBool, Ge(Select(lockArr(env.heap), ev(0).L[0]), IntLit(1)))
 	case "closed":
 		ch := ev(0)
 		return scalar(tBool, Select(hget(env.heap, "$chanclosed", ArrSort(SInt, SBool)), ch.L[0]))
